@@ -38,6 +38,13 @@ def stage_counts(ctx):
             kids = a5.cell_to_children(0, r)
             if len(kids) != n or len(set(kids)) != n:
                 raise Violation("num_cells_vs_enumeration", case, observed=(len(kids), len(set(kids))), expected=n)
+            # the counts must keep agreeing with the hierarchy whatever callers did with earlier results
+            kids.clear()
+            r0 = a5.get_res0_cells()
+            r0.clear()
+            again = a5.cell_to_children(0, r)
+            if len(set(again)) != n:
+                raise Violation("num_cells_vs_enumeration_after_caller_mutation", case, observed=len(set(again)), expected=n)
             col.bulk(1, 1, cls="count_enumerated", sample=case)
         else:
             col.bulk(1, 1 if r >= 2 else 0, cls="count_closed_form", sample=case)
